@@ -16,16 +16,49 @@ VERIF = os.path.dirname(os.path.dirname(os.path.abspath(__file__)))
 only = sys.argv[1:] or None
 
 
-def one(patch):
-    out = f"/tmp/evalb_{os.path.basename(os.path.dirname(patch))}_{os.path.basename(patch)}.json"
+# the patches were written against the commit of /repo current at the time; later fix: commits touched some of the same lines.
+# A patch that no longer applies to HEAD is evaluated on the newest of these older commits it applies to, *differentially*:
+# what counts is what the checks say about base+patch that they do not say about base (an older base lacks later repairs, so the
+# checks rightly report those defects on both).
+FALLBACK_BASES = ["b25517f"]
+_BASELINE = {}
+_LOCK = __import__("threading").Lock()
+
+
+def _run(patch, extra):
+    out = f"/tmp/evalb_{os.path.basename(os.path.dirname(patch))}_{os.path.basename(patch)}_{len(extra)}.json"
     if os.path.exists(out):
         os.unlink(out)
-    pr = subprocess.run(["/venv/bin/python", os.path.join(VERIF, "tools", "run_seeded.py"), patch, "--json", out], capture_output=True, text=True)
+    pr = subprocess.run(["/venv/bin/python", os.path.join(VERIF, "tools", "run_seeded.py"), patch, "--json", out] + extra, capture_output=True, text=True)
     if not os.path.exists(out):
-        return patch, {"_error": (pr.stdout + pr.stderr)[-300:]}
+        return None, (pr.stdout + pr.stderr)[-300:]
     r = json.load(open(out))
     os.unlink(out)
-    return patch, {k: {"exit": v["exit"], "rules": v["rules"], "first": v["first"], "errors": v["analysis_errors"][:1]} for k, v in r.items() if v["exit"] != 0}
+    return r, None
+
+
+def one(patch):
+    r, err = _run(patch, [])
+    if r is not None:
+        return patch, {k: {"exit": v["exit"], "rules": v["rules"], "first": v["first"], "errors": v["analysis_errors"][:1]} for k, v in r.items() if v["exit"] != 0}
+    for base in FALLBACK_BASES:
+        r, err2 = _run(patch, ["--base", base])
+        if r is None:
+            continue
+        with _LOCK:
+            if base not in _BASELINE:
+                _BASELINE[base] = _run(patch, ["--base", base, "--nopatch"])[0]
+        b = _BASELINE[base]
+        res = {}
+        for k, v in r.items():
+            bv = b.get(k, {"exit": 0, "rules": [], "violations": 0})
+            new_rules = sorted(set(v["rules"]) - set(bv["rules"]))
+            if new_rules or v["violations"] > bv["violations"] or (v["exit"] == 2 and bv["exit"] != 2):
+                res[k] = {"exit": 1 if (new_rules or v["violations"] > bv["violations"]) else 2, "rules": new_rules or v["rules"], "first": v["first"],
+                          "errors": v["analysis_errors"][:1]}
+        res["_base"] = base
+        return patch, res
+    return patch, {"_error": err}
 
 
 patches = []
@@ -54,8 +87,9 @@ for p in patches:
     r = res[p]
     if "_error" in r:
         verdict = "patch does not apply / tool error: " + r["_error"][:80]
-    elif not r:
-        verdict = "silent"
+    elif not [k for k in r if not k.startswith("_")]:
+        verdict = "silent" + (f" (on {r['_base']} + patch vs {r['_base']})" if "_base" in r else "")
     else:
+        r = {k: v for k, v in r.items() if not k.startswith("_")}
         verdict = "; ".join(f"{k}: {'FALSE ALARM ' + '/'.join(v['rules']) if v['exit'] == 1 else 'refused ' + (v['errors'][0][:90] if v['errors'] else '')}" for k, v in sorted(r.items()))
     print(f"| {os.path.relpath(p, os.path.join(VERIF, 'benign'))} | {str(n.get('kind', ''))[:40]} | {verdict} |")
